@@ -320,7 +320,7 @@ def witness_search(tier, seed):
         ops = []
         for attr, name, alias in aliased + plain:
             keys = [name] + ([alias] if alias else []) + ["ZZZ", name.lower()]
-            for v in ("x", ""):
+            for v in ("x", "") + ((None,) if kind != "SMChart" else ()):     # None: a key-only parameter (values are str or None)
                 ops.append(("setattr", attr, name, alias, v))
                 for k in keys:
                     ops.append(("setkey", k, None, None, v))
